@@ -189,6 +189,11 @@ fn de(s: &str) -> Option<Case> {
 /// reported as an oracle failure (with an empty Coq term: it is left out of the model files).
 pub fn run_forked(dir: &str, n: usize, workers: usize, f: &dyn Fn(usize) -> Case) -> Vec<Case> {
     use std::io::Write as _;
+    if let Ok(only) = std::env::var("A10H_ONLY") {
+        // Debugging aid: run a single case in this process.
+        let i: usize = only.parse().expect("A10H_ONLY=<index>");
+        return vec![f(i)];
+    }
     let workers = workers.max(1).min(n.max(1));
     let mut results: Vec<Option<Case>> = (0..n).map(|_| None).collect();
     // (worker, next index to run)
